@@ -751,10 +751,23 @@ class PrepareAst:
             fn_def.bind_args(args, kwargs), self._context, self, noreturn=noreturn
         ).convert_call()
 
+    def _apply_statements(self, stmts: list) -> list:
+        # Trace a list of statements. Statements that follow
+        # a statement that returns on every path are unreachable
+        # and, like in Python, not evaluated.
+        result = []
+
+        for stmt in stmts:
+            converted = self.apply(stmt)
+            result.append(converted)
+
+            if isinstance(converted, out.Statement) and converted.returns_always():
+                break
+
+        return result
+
     def convert_call(self) -> out.Statement | out.SelectWith:
-        return out.Call(
-            out.CodeBlock([self.apply(stmt) for stmt in self._fn_def.body()])
-        )
+        return out.Call(out.CodeBlock(self._apply_statements(self._fn_def.body())))
 
     def is_async(self) -> bool:
         return self._fn_def.is_async()
@@ -1067,7 +1080,7 @@ class PrepareAst:
                 raise AssertionError(f"invalid attribute context '{inp.ctx}'")
 
         if isinstance(inp, list):
-            return out.CodeBlock([self.apply(elem) for elem in inp])
+            return out.CodeBlock(self._apply_statements(inp))
 
         if isinstance(inp, ast.If):
             inp_expr = self.apply(inp.test)
